@@ -18,6 +18,8 @@ package appcore
 // received ones, except a final stop message).
 //@ func (*AppCore).HandleMessagesUntilEOF
 //@ spawns[C09] Handle
+// the reader stage is started with the caller's start time (a0 is the file handler, a1 the start time)
+//@ atcall[C17] (*github.com/goblimey/go-ntrip/file_handler.Handler).Handle /.*/: a1.ns == startTime.ns
 //@ requires appCore != nil && reader != nil && appCore.Config != nil
 //@ requires[C13,C09] appCore.Config.TimeoutOnEOFMilliSeconds <= 1<<40 && appCore.Config.WaitTimeOnEOFMilliseconds <= 1<<40
 //@ requires[C09] forall(i, 0, len(appCore.Channels), forall(j, 0, len(appCore.Channels), i != j && appCore.Channels[i] != nil ==> appCore.Channels[i] != appCore.Channels[j]))
